@@ -211,6 +211,16 @@ func c15Drive(f int, src io.Reader, streamLen int, zero bool, ngopts pcapgo.NgRe
 			res.final, res.finalErr, res.ctor = err.Error(), err, true
 			return
 		}
+		if f == fmtClassic && res.snaplen > 64<<20 {
+			// a declared snap length of gigabytes lets every record ask for a buffer of that size, which the property allows
+			// ("plus the declared snap length"): reading on would only measure the allocator - and with sixteen children in
+			// parallel exhaust the machine's memory, after which the CPU budget reports page-fault time as a runaway
+			res.final = "not read: declared snap length above 64 MiB"
+			if c15Ctx != nil {
+				c15Ctx.Count("streams_not_read_huge_declared_snaplen", 1)
+			}
+			return
+		}
 		for {
 			res.calls++
 			a0 = allocBytes()
